@@ -265,7 +265,9 @@ def _r3(ctx, cg):
                         n2 = callee_name(t2) or ""
                         if n2.endswith("::ne") or n2.endswith("::eq"):
                             args = [norm(x) for x in Tc.call_args(b2)]
-                            if any(a[0] == "field" and a[2] == "serverip" for a in args) and n2.endswith("::ne") and t2["dest"] == (0,):
+                            # a captured variable is looked at in the vocabulary of the function that created the closure
+                            args = args + [lift(P, cbod, x)[1] for x in args]
+                            if any(any(y[0] == "field" and y[2] == "serverip" for y in subterms(a)) for a in args) and n2.endswith("::ne") and t2["dest"] == (0,):
                                 good = True
             ctx.check(good, "R3", "default-policy-filters-own-address", ctx.where(b, s["sp"]), "the default pool must not contain the receiving address")
     ctx.floor("R3", "default policy address sets", n, 1)
